@@ -4,5 +4,5 @@ package verifsim
 
 import "embed"
 
-//go:embed simrt/*.go hrt/*.go
+//go:embed simrt/*.go hrt/*.go specgen/*.go earley/*.go core/*.go runsim/*.go
 var FS embed.FS
